@@ -1,5 +1,8 @@
 SPECIFICATION Spec
 CONSTANTS Desc = {1, 2, 3}
   OnCancel = "kill-tree"
+  ReapedGroupKill = TRUE
+  WaitDelay = TRUE
 INVARIANTS AfterReturnNoSurvivor IsOnFalseAfterwards
 PROPERTIES StopReturns
+CHECK_DEADLOCK FALSE
